@@ -898,6 +898,8 @@ def main(tier):
     rule_F(ck, units)
     rule_G(ck, units)
     rule_H(ck, units)
+    import c16
+    c16.rule_profile(ck, units)      # the skyline copy pass writes only what the profile pass sized (shared with C16)
     # outputs are a function of the inputs only: the multigrid cycle does not read what an earlier application left in
     # its per-level scratch vectors (rules shared with C02)
     import c02
